@@ -76,10 +76,11 @@ def queries(tier):
 def bounds(tier):
     return {'kinds': 'fixnum (free), char, flonum (all 64 bits free), bignum 1 and 2 words (free words, leading zero word allowed, value outside fixnum range), '
                      'string of 2 bytes at a free offset into its own free 4-byte store, bytevector of 2 free bytes, pair and 2-vector of free fixnums, 2-char symbol',
-            'hash': 'raw hash value (bound 0) compared for equality; range check with bound 2^61-1 (default) and 8', 'unwind': US}
+            'hash': 'raw hash value (bound 0) compared for equality; range check with bound 2^61-1 (default) and 8', 'unwind': US,
+            'table': '2 buckets (no regrow), two bignum keys; hash residues (0|1 each) and equal?-outcome enumerated per query; histories insert A/lookup B/insert B/lookup A and insert A/lookup B/delete B/lookup A'}
 
 
 ASSUMPTIONS = R_ASSUME + ['exception constructors replaced by harness/exc_models.c (not reached by these harnesses)',
                           'context built by hand: globals vector + type table copied from the real static _sexp_type_specs (kitfull.c)']
 OUTSIDE = ['user-supplied hash/equality closures (call the VM)', '(chibi equiv) cycle-safe equal? and SRFI 125/128 wrappers (Scheme)',
-           'nesting deeper than 1, containers longer than 2, strings longer than 2 bytes', 'hash-table histories longer than insert/lookup/insert or insert/lookup/delete/lookup; keys other than bignums in the table step']
+           'nesting deeper than 1, containers longer than 2, strings longer than 2 bytes', 'hash-table histories longer than insert/lookup/insert or insert/lookup/delete/lookup; regrow; the real hash / equal? inside the table step (answered by specifications there, checked by their own queries)']
